@@ -1,6 +1,7 @@
 package main
 
 import (
+	"os"
 	"fmt"
 	"strings"
 
@@ -101,6 +102,23 @@ func modelNontrivial(m *ApiModel) bool {
 func runC04(ctx *Ctx) {
 	r := ctx.Rng.Fork()
 	buildCorrSuite(ctx, r.Fork(), ctx.Budget(600, 40000))
+	{
+		rr := r.Fork()
+		var docs [][]byte
+		for i := 0; i < ctx.Budget(150, 10000); i++ {
+			d, _ := GenModel(rr).Render(RandomStyle(rr.Fork()), true)
+			docs = append(docs, d)
+		}
+		for _, f := range fixtureFiles() {
+			if strings.Contains(f, "include") {
+				continue
+			}
+			if b, err := os.ReadFile(f); err == nil && len(b) < 12000 {
+				docs = append(docs, b)
+			}
+		}
+		contentCorrespondence(ctx, docs, "generated documents and the fixture files")
+	}
 	n := ctx.Budget(1500, 100000)
 	rejected := 0
 	for i := 0; i < n; i++ {
